@@ -389,20 +389,8 @@ fn stub_put_inflight(_q: &PutQuery, tid: u32) -> bool {
 }
 
 /// (PutQuery::success / error run for real here: success carries a Kani contract and cannot be
-/// stubbed; their effect is read back through the put's counters)
-#[kani::proof]
-#[kani::unwind(5)]
-#[kani::stub(std::time::Instant::now, clock::mock_now)]
-#[kani::stub(getrandom::fill, fill_const)]
-#[kani::stub(PutQuery::inflight, stub_put_inflight)]
-#[kani::stub(ClosestNodes::add, stub_closest_add)]
-#[kani::stub(RoutingTable::add, stub_rt_add)]
-// (reachability is static: without these three, ed25519-dalek and SHA-1 are linked in and
-// goto-instrument alone exceeds 12 GB)
-#[kani::stub(crate::common::MutableItem::from_dht_message, mstub::stub_from_dht_message)]
-#[kani::stub(crate::common::SignedAnnounce::from_dht_response, astub::stub_from_dht_response)]
-#[kani::stub(crate::common::validate_immutable, stub_validate_immutable)]
-fn c08_a_reply_to_a_store_request_is_counted_exactly_once() {
+/// stubbed; their effect is read back through the put's counters. One harness per reply kind.)
+fn put_reply_case(is_ack: bool) {
     use crate::core::put_query::verif_kani::{stored_at_of, tallies, tally_of};
     let mut c = core(true);
     c.put_queries = HashMap::new();
@@ -411,9 +399,7 @@ fn c08_a_reply_to_a_store_request_is_counted_exactly_once() {
     c.put_queries.insert(target, PutQuery::new(crate::common::PutRequestSpecific::PutImmutable(crate::common::PutImmutableRequestArguments { target, v: Box::new([1]) }), None));
     let tid: u32 = kani::any();
     let code: i32 = kani::any();
-    let kind: u8 = kani::any();
-    kani::assume(kind < 2);
-    let mt = if kind == 0 {
+    let mt = if is_ack {
         MessageType::Response(ResponseSpecific::Ping(PingResponseArguments { responder_id: id1(RESPONDER) }))
     } else {
         MessageType::Error(crate::common::ErrorSpecific { code, description: String::new() })
@@ -426,13 +412,34 @@ fn c08_a_reply_to_a_store_request_is_counted_exactly_once() {
         Some(e) => (stored_at_of(&e.1), tallies(&e.1), tally_of(&e.1, code)),
         None => (99, 99, 99),
     };
-    assert!(acks == if ours && kind == 0 { 1 } else { 0 }, "C08: an acknowledgement of one of the put's store requests is counted exactly once; nothing else counts as one");
-    assert!(errs == if ours && kind == 1 { 1 } else { 0 }, "C08: an error reply is tallied exactly once");
-    if ours && kind == 1 {
+    assert!(acks == if ours && is_ack { 1 } else { 0 }, "C08: an acknowledgement of one of the put's store requests is counted exactly once; nothing else counts as one");
+    assert!(errs == if ours && !is_ack { 1 } else { 0 }, "C08: an error reply is tallied exactly once");
+    if ours && !is_ack {
         assert!(this == 1, "C08: ... under its own code");
     }
-    kani::cover!(ours && kind == 0);
-    kani::cover!(ours && kind == 1 && code == 301);
-    kani::cover!(!ours);
+    kani::cover!(ours);
+    kani::cover!(!ours && tid == TID, "a read-only reply is not counted");
     core::mem::forget(c);
 }
+
+macro_rules! put_reply_harness {
+    ($name:ident, $ack:expr) => {
+        #[kani::proof]
+        #[kani::unwind(5)]
+        #[kani::stub(std::time::Instant::now, clock::mock_now)]
+        #[kani::stub(getrandom::fill, fill_const)]
+        #[kani::stub(PutQuery::inflight, stub_put_inflight)]
+        #[kani::stub(ClosestNodes::add, stub_closest_add)]
+        #[kani::stub(RoutingTable::add, stub_rt_add)]
+        // (reachability is static: without these three, ed25519-dalek and SHA-1 are linked in and
+        // goto-instrument alone exceeds 12 GB)
+        #[kani::stub(crate::common::MutableItem::from_dht_message, mstub::stub_from_dht_message)]
+        #[kani::stub(crate::common::SignedAnnounce::from_dht_response, astub::stub_from_dht_response)]
+        #[kani::stub(crate::common::validate_immutable, stub_validate_immutable)]
+        fn $name() {
+            put_reply_case($ack)
+        }
+    };
+}
+put_reply_harness!(c08_an_acknowledgement_of_a_store_request_is_counted_exactly_once, true);
+put_reply_harness!(c08_an_error_reply_to_a_store_request_is_tallied_exactly_once, false);
